@@ -9,6 +9,7 @@ package main
 //   clock       time.Now / types.Now / time.Since ...
 //   rand        math/rand, crypto/rand
 //   global      use of a package-level map / sync.Pool / sync.Once / lru cache variable
+//   global-write  assignment to / increment of any package-level variable
 // A site is named by package-relative file, enclosing function and an ordinal inside the function (no line
 // numbers, so unrelated edits do not move it).
 
@@ -63,6 +64,31 @@ func fnKey(f *types.Func) string {
 		return pkg + ".?." + f.Name()
 	}
 	return pkg + "." + f.Name()
+}
+
+// rootIdent strips index, field, dereference and parentheses from an assignment target.
+func rootIdent(info *types.Info, e ast.Expr) *ast.Ident {
+	for {
+		switch x := e.(type) {
+		case *ast.Ident:
+			return x
+		case *ast.IndexExpr:
+			e = x.X
+		case *ast.SelectorExpr:
+			if id, ok := x.X.(*ast.Ident); ok {
+				if _, isPkg := info.Uses[id].(*types.PkgName); isPkg {
+					return x.Sel // otherpkg.Var
+				}
+			}
+			e = x.X
+		case *ast.StarExpr:
+			e = x.X
+		case *ast.ParenExpr:
+			e = x.X
+		default:
+			return nil
+		}
+	}
 }
 
 func extractSites(repo string) ([]string, error) {
@@ -218,6 +244,20 @@ func extractSites(repo string) ([]string, error) {
 				if t := info.TypeOf(e.X); t != nil {
 					if _, ok := t.Underlying().(*types.Map); ok {
 						add("range-map", exprStr(e.X))
+					}
+				}
+			case *ast.AssignStmt:
+				for _, l := range e.Lhs {
+					if id := rootIdent(info, l); id != nil {
+						if v, ok := info.Uses[id].(*types.Var); ok && v.Pkg() != nil && v.Parent() == v.Pkg().Scope() {
+							add("global-write", v.Pkg().Name()+"."+v.Name())
+						}
+					}
+				}
+			case *ast.IncDecStmt:
+				if id := rootIdent(info, e.X); id != nil {
+					if v, ok := info.Uses[id].(*types.Var); ok && v.Pkg() != nil && v.Parent() == v.Pkg().Scope() {
+						add("global-write", v.Pkg().Name()+"."+v.Name())
 					}
 				}
 			case *ast.GoStmt:
